@@ -13,7 +13,8 @@ def run(F, G, tier, seed):
     effects.gate_table(chk, F, rid, effects.C11_CONTEXTS)
     effects.quantifier_bodies(chk, F, rid)
     kinds = effects.run_writekinds(chk, F, G, parts=("collect",))
-    effects.run_visitors(chk, F)
+    effects.run_lvshape(chk, F, G, parts=("symbols",))
+    effects.run_visitors(chk, F, visitors=("UTAP::CollectChangesVisitor",))
     effects.run_reads(chk, F)
     chk.analysed["write_kinds"] = sorted(kinds)
     return chk.finish(
